@@ -43,7 +43,7 @@ WRAP = ['sendto', 'recvfrom'] + sorted({w for m in PARTS for w in getattr(m, 'WR
 LIBS = sorted({l for m in PARTS for l in getattr(m, 'LIBS', [])})
 COQ_TIMEOUT = 1200
 # o<k>: the node's outputs after datagram k (events, handler DMX data, active priority); s<k> also carries internals
-SPEC_KEYS = ['hz', 'twin'] + ['o%d' % i for i in range(64)]
+SPEC_KEYS = ['hz', 'twin'] + ['o%d' % i for i in range(320)]
 INTERNAL_KEYS = []
 
 
